@@ -81,6 +81,12 @@ def make_data(rng, n, samples=1, grid=5, style="gauss", outlier_prob=0.0, spread
         for s in range(samples):
             if style == "flat":
                 row = np.zeros(grid)
+            elif style == "binom":
+                # informative rows of realistic shape: log Binomial(d, k | p = grid value clipped to [0.02, 0.98]), d = 12
+                d = 12
+                k = rng.randint(0, d)
+                pg = np.clip(xs, 0.02, 0.98)
+                row = k * np.log(pg) + (d - k) * np.log1p(-pg)
             elif style == "narrow":
                 # dynamic range far inside the FFT path's accuracy window (every entry stays above 1e-4 of the row peak)
                 row = np.array([rng.uniform(-0.5, 0.5) for _ in range(grid)])
